@@ -223,6 +223,122 @@ fn sort_preferred(kv: &BTreeMap<String, String>) -> Vec<String> {
     vec![format!("order={}", idx.join(",")), format!("ports={}", ports.join(",")), "result=ok".into()]
 }
 
+/// C18: one operation through the transport dispatch wrapper `stream::Braid` over a real connected pair
+/// (`arm` = duplex | unix | tcp).  11 bytes are written, then `op` (flush | shutdown | none) is applied
+/// while the writer stays alive; the peer reports what it received and whether it saw end-of-stream;
+/// after a flush a second write must still get through; the reverse direction is read through the
+/// writer's `Braid` as well.
+fn braid_op(kv: &BTreeMap<String, String>) -> Vec<String> {
+    use hyperdriver::stream::Braid;
+    use tokio::io::{AsyncReadExt, AsyncWriteExt};
+    let arm = kv.get("arm").cloned().unwrap_or_else(|| "duplex".into());
+    let op = kv.get("op").cloned().unwrap_or_else(|| "shutdown".into());
+    let rt = tokio::runtime::Builder::new_current_thread().enable_all().build().unwrap();
+    rt.block_on(async move {
+        let (mut w, mut r): (Braid, Braid) = match arm.as_str() {
+            "duplex" => {
+                let (a, b) = hyperdriver::stream::duplex::DuplexStream::new(64);
+                (a.into(), b.into())
+            }
+            "unix" => match hyperdriver::stream::UnixStream::pair() {
+                Ok((a, b)) => (a.into(), b.into()),
+                Err(e) => return vec![format!("input_error=unix pair: {e}")],
+            },
+            "tcp" => {
+                let l = match tokio::net::TcpListener::bind((std::net::Ipv4Addr::LOCALHOST, 0)).await {
+                    Ok(l) => l,
+                    Err(e) => return vec![format!("input_error=tcp listener: {e}")],
+                };
+                let addr = l.local_addr().unwrap();
+                let (c, s) = tokio::join!(tokio::net::TcpStream::connect(addr), l.accept());
+                match (c, s) {
+                    (Ok(c), Ok((s, peer))) => (
+                        hyperdriver::stream::TcpStream::client(c).into(),
+                        hyperdriver::stream::TcpStream::server(s, peer).into(),
+                    ),
+                    _ => return vec!["input_error=tcp pair".into()],
+                }
+            }
+            _ => return vec![format!("input_error=unknown arm {arm}")],
+        };
+        let mut out = Vec::new();
+        let t = std::time::Duration::from_millis(500);
+        if let Err(e) = w.write_all(b"hello world").await {
+            return vec![format!("write=err:{e}"), "result=ok".into()];
+        }
+        match op.as_str() {
+            "flush" => out.push(format!("op_result={}", w.flush().await.map(|_| "ok".to_string()).unwrap_or_else(|e| format!("err:{e}")))),
+            "shutdown" => out.push(format!("op_result={}", w.shutdown().await.map(|_| "ok".to_string()).unwrap_or_else(|e| format!("err:{e}")))),
+            _ => {}
+        }
+        let mut got = vec![0u8; 11];
+        let first = tokio::time::timeout(t, r.read_exact(&mut got)).await;
+        out.push(format!("bytes_ok={}", (matches!(first, Ok(Ok(_))) && &got[..] == b"hello world") as u8));
+        if op != "shutdown" {
+            // the write side must still be usable
+            let again = w.write_all(b"again").await.is_ok() && w.flush().await.is_ok();
+            let mut b5 = [0u8; 5];
+            let r2 = tokio::time::timeout(t, r.read_exact(&mut b5)).await;
+            out.push(format!("write_after_op_ok={}", (again && matches!(r2, Ok(Ok(_))) && &b5 == b"again") as u8));
+        }
+        let mut rest = Vec::new();
+        let eof = tokio::time::timeout(t, r.read_to_end(&mut rest)).await;
+        out.push(format!("eof_seen={}", matches!(eof, Ok(Ok(_))) as u8));
+        out.push(format!("extra_bytes={}", rest.len()));
+        // reverse direction, read through the writer's wrapper
+        let back = r.write_all(b"reply").await.is_ok() && r.flush().await.is_ok();
+        let mut b5 = [0u8; 5];
+        let r3 = tokio::time::timeout(t, w.read_exact(&mut b5)).await;
+        out.push(format!("reverse_ok={}", (back && matches!(r3, Ok(Ok(_))) && &b5 == b"reply") as u8));
+        out.push("result=ok".into());
+        out
+    })
+}
+
+/// C16: which family is attempted first when local addresses are bound.  Two loopback listeners (IPv4 and
+/// IPv6) both accept; `connect_to_addrs` gets one address of each family, in both resolver orders, with a
+/// long stagger delay, so the stream that comes back belongs to the attempt started first.
+fn binding_pref(kv: &BTreeMap<String, String>) -> Vec<String> {
+    use hyperdriver::client::conn::transport::tcp::{TcpTransport, TcpTransportConfig};
+    use std::net::{Ipv4Addr, Ipv6Addr, SocketAddr};
+    let b4 = kv.get("bound4").map(|s| s == "1").unwrap_or(false);
+    let b6 = kv.get("bound6").map(|s| s == "1").unwrap_or(false);
+    let rt = tokio::runtime::Builder::new_current_thread().enable_all().build().unwrap();
+    rt.block_on(async move {
+        let l4 = match tokio::net::TcpListener::bind((Ipv4Addr::LOCALHOST, 0)).await {
+            Ok(l) => l,
+            Err(e) => return vec![format!("input_error=no IPv4 loopback: {e}")],
+        };
+        let l6 = match tokio::net::TcpListener::bind((Ipv6Addr::LOCALHOST, 0)).await {
+            Ok(l) => l,
+            Err(e) => return vec![format!("input_error=no IPv6 loopback: {e}")],
+        };
+        let a4: SocketAddr = l4.local_addr().unwrap();
+        let a6: SocketAddr = l6.local_addr().unwrap();
+        let mut config = TcpTransportConfig::default();
+        config.happy_eyeballs_timeout = Some(std::time::Duration::from_secs(5));
+        config.happy_eyeballs_concurrency = Some(1);
+        config.connect_timeout = Some(std::time::Duration::from_secs(10));
+        config.local_address_ipv4 = b4.then_some(Ipv4Addr::LOCALHOST);
+        config.local_address_ipv6 = b6.then_some(Ipv6Addr::LOCALHOST);
+        let t: TcpTransport = TcpTransport::builder().with_config(config).with_gai_resolver().build();
+        let mut out = Vec::new();
+        for (tag, addrs) in [("first_a", vec![a4, a6]), ("first_b", vec![a6, a4])] {
+            let r = tokio::time::timeout(std::time::Duration::from_secs(3), t.connect_to_addrs(addrs)).await;
+            match r {
+                Ok(Ok(s)) => match s.peer_addr() {
+                    Ok(p) => out.push(format!("{tag}={}", if p.is_ipv4() { 4 } else { 6 })),
+                    Err(e) => out.push(format!("{tag}=err:{e}")),
+                },
+                Ok(Err(e)) => out.push(format!("{tag}=err:{e}")),
+                Err(_) => out.push(format!("{tag}=err:timeout")),
+            }
+        }
+        out.push("result=ok".into());
+        out
+    })
+}
+
 /// C09: `cancelled_first` clients start connecting to a duplex listener and give up (their connect
 /// future is dropped after its first poll), then `waiting` well-behaved clients connect; the
 /// listener accepts once.  A cancelled connect must not surface as a listener error.
@@ -233,13 +349,28 @@ fn duplex_cancelled_connect(kv: &BTreeMap<String, String>) -> Vec<String> {
     use std::task::{Context, Poll};
     let cancelled: usize = kv.get("cancelled_first").and_then(|s| s.parse().ok()).unwrap_or(1);
     let waiting: usize = kv.get("waiting").and_then(|s| s.parse().ok()).unwrap_or(0);
+    // buffer sizes the clients ask for (in queue order) and the listener's own cap, if any
+    let sizes: Vec<usize> = kv.get("bufsizes").map(|s| s.split(',').filter(|x| !x.is_empty()).map(|x| x.parse::<u64>().unwrap_or(1024).min(1 << 20) as usize).collect()).unwrap_or_default();
+    let cap: Option<usize> = kv.get("cap").and_then(|s| s.parse::<u64>().ok()).map(|c| c.min(1 << 20) as usize);
     let rt = tokio::runtime::Builder::new_current_thread().enable_all().build().unwrap();
     rt.block_on(async move {
-        let (client, mut incoming) = hyperdriver::stream::duplex::pair();
+        let (client, incoming) = hyperdriver::stream::duplex::pair();
+        let mut incoming = match cap {
+            Some(c) => incoming.with_max_buf_size(c),
+            None => incoming,
+        };
+        let mut next_size = {
+            let mut i = 0;
+            move || {
+                let v = sizes.get(i).copied().unwrap_or(1024);
+                i += 1;
+                v
+            }
+        };
         let w = futures_util::task::noop_waker();
         let mut cx = Context::from_waker(&w);
         for _ in 0..cancelled {
-            let mut fut = Box::pin(client.connect(1024));
+            let mut fut = Box::pin(client.connect(next_size()));
             let _ = fut.as_mut().poll(&mut cx); // request is now queued at the listener
             drop(fut); // ... and the client gives up
         }
@@ -247,7 +378,8 @@ fn duplex_cancelled_connect(kv: &BTreeMap<String, String>) -> Vec<String> {
         let mut tasks = vec![];
         for _ in 0..waiting {
             let c = client.clone();
-            tasks.push(tokio::spawn(async move { c.connect(1024).await.is_ok() }));
+            let size = next_size();
+            tasks.push(tokio::spawn(async move { c.connect(size).await.is_ok() }));
         }
         tokio::task::yield_now().await;
         tokio::time::sleep(std::time::Duration::from_millis(20)).await;
@@ -279,6 +411,480 @@ fn duplex_cancelled_connect(kv: &BTreeMap<String, String>) -> Vec<String> {
         out.push("listener_handle_alive=true".into());
         out.push("result=ok".into());
         drop(client);
+        out
+    })
+}
+
+/// C19: request A (HTTP/1.1) is in flight on its connection and never answered; request B to the same
+/// origin is still dialing (the listener does not accept its connection yet) when A times out - the
+/// timeout layer drops A's exchange, which closes A's connection.  Then B's connection is accepted.  B must
+/// be served (200); it must not inherit the connection A left behind.  `how=timeout` uses the client's
+/// timeout layer, `how=drop` drops A's future.
+fn pool_timeout_inflight(kv: &BTreeMap<String, String>) -> Vec<String> {
+    use hyperdriver::bridge::io::TokioIo;
+    use hyperdriver::client::conn::protocol::auto::HttpConnectionBuilder;
+    use hyperdriver::client::conn::transport::duplex::DuplexTransport;
+    use hyperdriver::server::conn::Accept;
+    use std::sync::Arc;
+    let how = kv.get("how").cloned().unwrap_or_else(|| "timeout".into());
+    let rt = tokio::runtime::Builder::new_current_thread().enable_all().build().unwrap();
+    rt.block_on(async move {
+        let (tx, mut incoming) = hyperdriver::stream::duplex::pair();
+        let second = Arc::new(tokio::sync::Notify::new());
+        {
+            let second = second.clone();
+            tokio::spawn(async move {
+                let mut n = 0;
+                loop {
+                    if n == 1 {
+                        second.notified().await;
+                    }
+                    let s = match std::future::poll_fn(|cx| std::pin::Pin::new(&mut incoming).poll_accept(cx)).await {
+                        Ok(s) => s,
+                        Err(_) => break,
+                    };
+                    n += 1;
+                    tokio::spawn(async move {
+                        let svc = hyper::service::service_fn(|req: http::Request<hyper::body::Incoming>| async move {
+                            if req.uri().path() == "/slow" {
+                                std::future::pending::<()>().await;
+                            }
+                            Ok::<_, std::convert::Infallible>(http::Response::new(hyperdriver::Body::empty()))
+                        });
+                        let _ = hyper::server::conn::http1::Builder::new().serve_connection(TokioIo::new(s), svc).await;
+                    });
+                }
+            });
+        }
+        let mut cfg = hyperdriver::client::PoolConfig::default();
+        cfg.idle_timeout = None;
+        let builder = hyperdriver::client::Client::builder()
+            .with_protocol(HttpConnectionBuilder::default())
+            .with_transport(DuplexTransport::new(4096, tx.clone()))
+            .with_pool(cfg);
+        let client = if how == "timeout" { builder.with_timeout(std::time::Duration::from_millis(600)).build() } else { builder.without_timeout().build() };
+        let mut ca = client.clone();
+        let a = tokio::spawn(async move {
+            let req = http::Request::get("http://origin.test/slow").body(hyperdriver::Body::empty()).unwrap();
+            match ca.request(req).await {
+                Ok(r) => format!("{}", r.status().as_u16()),
+                Err(e) => format!("err:{e}"),
+            }
+        });
+        tokio::time::sleep(std::time::Duration::from_millis(400)).await;
+        let mut cb = client.clone();
+        let b = tokio::spawn(async move {
+            let req = http::Request::get("http://origin.test/fast").body(hyperdriver::Body::empty()).unwrap();
+            match tokio::time::timeout(std::time::Duration::from_millis(2500), cb.request(req)).await {
+                Ok(Ok(r)) => format!("{}", r.status().as_u16()),
+                Ok(Err(e)) => format!("err:{e}"),
+                Err(_) => "timeout".to_string(),
+            }
+        });
+        tokio::time::sleep(std::time::Duration::from_millis(100)).await;
+        let mut out = vec![];
+        if how == "timeout" {
+            // A expires at 600 ms, B (issued at 400 ms) at 1000 ms; B's connection is accepted at about 750 ms
+            let ra = a.await.unwrap_or_else(|_| "join error".into());
+            out.push(format!("a={ra}"));
+        } else {
+            a.abort();
+            let _ = a.await;
+            out.push("a=dropped".into());
+        }
+        tokio::time::sleep(std::time::Duration::from_millis(150)).await;
+        second.notify_one();
+        let rb = b.await.unwrap_or_else(|_| "join error".into());
+        out.push(format!("b={rb}"));
+        out.push("result=ok".into());
+        out
+    })
+}
+
+/// C05: a connection left untouched in the pool for `gap_ms` with `idle_timeout = timeout_ms` (0 = never
+/// expires, absent = no timeout).  `share=1` uses HTTP/2 (a shareable connection), `share=0` HTTP/1.1.
+/// One request, the gap, a second request: it must dial again iff the timeout is non-zero and shorter than
+/// the gap.  The gap is chosen far from the timeout by the caller (no race with the clock).
+fn pool_idle_expiry(kv: &BTreeMap<String, String>) -> Vec<String> {
+    use hyperdriver::bridge::io::TokioIo;
+    use hyperdriver::bridge::rt::TokioExecutor;
+    use hyperdriver::client::conn::protocol::auto::HttpConnectionBuilder;
+    use hyperdriver::client::conn::transport::duplex::DuplexTransport;
+    use hyperdriver::server::conn::Accept;
+    use std::sync::atomic::{AtomicUsize, Ordering};
+    use std::sync::Arc;
+    use std::task::{Context, Poll};
+
+    #[derive(Clone)]
+    struct Counting(DuplexTransport, Arc<AtomicUsize>);
+    impl tower::Service<http::request::Parts> for Counting {
+        type Response = <DuplexTransport as tower::Service<http::request::Parts>>::Response;
+        type Error = <DuplexTransport as tower::Service<http::request::Parts>>::Error;
+        type Future = <DuplexTransport as tower::Service<http::request::Parts>>::Future;
+        fn poll_ready(&mut self, cx: &mut Context<'_>) -> Poll<Result<(), Self::Error>> {
+            self.0.poll_ready(cx)
+        }
+        fn call(&mut self, req: http::request::Parts) -> Self::Future {
+            self.1.fetch_add(1, Ordering::SeqCst);
+            self.0.call(req)
+        }
+    }
+    let share = kv.get("share").map(|s| s == "1").unwrap_or(false);
+    let timeout_ms: Option<u64> = kv.get("timeout_ms").and_then(|s| s.parse().ok());
+    let gap_ms: u64 = kv.get("gap_ms").and_then(|s| s.parse().ok()).unwrap_or(200);
+    let rt = tokio::runtime::Builder::new_current_thread().enable_all().build().unwrap();
+    rt.block_on(async move {
+        let (tx, mut incoming) = hyperdriver::stream::duplex::pair();
+        tokio::spawn(async move {
+            loop {
+                let s = match std::future::poll_fn(|cx| std::pin::Pin::new(&mut incoming).poll_accept(cx)).await {
+                    Ok(s) => s,
+                    Err(_) => break,
+                };
+                tokio::spawn(async move {
+                    let svc = hyper::service::service_fn(|_req: http::Request<hyper::body::Incoming>| async move {
+                        Ok::<_, std::convert::Infallible>(http::Response::new(hyperdriver::Body::empty()))
+                    });
+                    let b = hyperdriver::server::conn::auto::Builder::new(TokioExecutor::new());
+                    let _ = b.serve_connection_with_upgrades(TokioIo::new(s), svc).await;
+                });
+            }
+        });
+        let dials = Arc::new(AtomicUsize::new(0));
+        let mut cfg = hyperdriver::client::PoolConfig::default();
+        cfg.idle_timeout = timeout_ms.map(std::time::Duration::from_millis);
+        cfg.continue_after_preemption = false;
+        let client = hyperdriver::client::Client::builder()
+            .with_protocol(HttpConnectionBuilder::default())
+            .with_transport(Counting(DuplexTransport::new(4096, tx.clone()), dials.clone()))
+            .with_pool(cfg)
+            .build();
+        let version = if share { http::Version::HTTP_2 } else { http::Version::HTTP_11 };
+        let mut out = vec![];
+        for round in 0..2 {
+            let mut c = client.clone();
+            let req = http::Request::get("http://origin.test/").version(version).body(hyperdriver::Body::empty()).unwrap();
+            let r = match c.request(req).await {
+                Ok(r) => format!("{}", r.status().as_u16()),
+                Err(e) => format!("err:{e}"),
+            };
+            out.push(format!("r{round}={r}"));
+            if round == 0 {
+                for _ in 0..20 {
+                    tokio::task::yield_now().await;
+                }
+                tokio::time::sleep(std::time::Duration::from_millis(gap_ms)).await;
+            }
+        }
+        let d = dials.load(Ordering::SeqCst);
+        out.push(format!("dials={d}"));
+        let expire = matches!(timeout_ms, Some(t) if t > 0 && t < gap_ms);
+        out.push(format!("expected_dials={}", if expire { 2 } else { 1 }));
+        out.push("result=ok".into());
+        out
+    })
+}
+
+/// C04 / C05: idle connections of one origin, some of them closed by the peer while idle.  `open=<flags>`
+/// lists the idle entries in release order (last = released most recently = looked at first), `1` open,
+/// `0` closed by the peer.  The entries are produced by a burst of concurrent HTTP/1.1 requests whose
+/// responses are completed one after the other; then the server drops the flagged connections; then as
+/// many probes as there are open idle connections are issued together (one probe if there is none).
+/// Every open idle connection must be reused (no dial), a closed one never.
+fn pool_idle_closed(kv: &BTreeMap<String, String>) -> Vec<String> {
+    use hyperdriver::bridge::io::TokioIo;
+    use hyperdriver::client::conn::protocol::auto::HttpConnectionBuilder;
+    use hyperdriver::client::conn::transport::duplex::DuplexTransport;
+    use std::sync::atomic::{AtomicUsize, Ordering};
+    use std::sync::{Arc, Mutex};
+    use std::task::{Context, Poll};
+
+    #[derive(Clone)]
+    struct Counting(DuplexTransport, Arc<AtomicUsize>);
+    impl tower::Service<http::request::Parts> for Counting {
+        type Response = <DuplexTransport as tower::Service<http::request::Parts>>::Response;
+        type Error = <DuplexTransport as tower::Service<http::request::Parts>>::Error;
+        type Future = <DuplexTransport as tower::Service<http::request::Parts>>::Future;
+        fn poll_ready(&mut self, cx: &mut Context<'_>) -> Poll<Result<(), Self::Error>> {
+            self.0.poll_ready(cx)
+        }
+        fn call(&mut self, req: http::request::Parts) -> Self::Future {
+            self.1.fetch_add(1, Ordering::SeqCst);
+            self.0.call(req)
+        }
+    }
+
+    let flags: Vec<bool> = kv.get("open").cloned().unwrap_or_else(|| "10".into()).chars().map(|c| c == '1').collect();
+    let n = flags.len();
+    if n == 0 || n > 6 {
+        return vec!["input_error=open flags: 1..6 entries".into()];
+    }
+    let m_open = flags.iter().filter(|f| **f).count();
+    let probes = m_open.max(1);
+    let rt = tokio::runtime::Builder::new_current_thread().enable_all().build().unwrap();
+    rt.block_on(async move {
+        let (tx, incoming) = hyperdriver::stream::duplex::pair();
+        let in_flight = Arc::new(AtomicUsize::new(0));
+        let (turn_tx, turn_rx) = tokio::sync::watch::channel::<i64>(-1);
+        let conn_of: Arc<Mutex<Vec<Option<usize>>>> = Arc::new(Mutex::new(vec![None; n]));
+        let probe_conns: Arc<Mutex<Vec<usize>>> = Arc::new(Mutex::new(vec![]));
+        let handles: Arc<Mutex<Vec<tokio::task::JoinHandle<()>>>> = Arc::new(Mutex::new(vec![]));
+        let probe_gate = Arc::new(tokio::sync::Notify::new());
+        let probes_in = Arc::new(AtomicUsize::new(0));
+        {
+            let in_flight = in_flight.clone();
+            let conn_of = conn_of.clone();
+            let probe_conns = probe_conns.clone();
+            let handles = handles.clone();
+            let probe_gate = probe_gate.clone();
+            let probes_in = probes_in.clone();
+            tokio::spawn(async move {
+                use hyperdriver::server::conn::Accept;
+                let mut incoming = incoming;
+                let mut cid = 0usize;
+                loop {
+                    let stream = match std::future::poll_fn(|cx| std::pin::Pin::new(&mut incoming).poll_accept(cx)).await {
+                        Ok(s) => s,
+                        Err(_) => break,
+                    };
+                    let my = cid;
+                    cid += 1;
+                    let in_flight = in_flight.clone();
+                    let conn_of = conn_of.clone();
+                    let probe_conns = probe_conns.clone();
+                    let turn_rx = turn_rx.clone();
+                    let probe_gate = probe_gate.clone();
+                    let probes_in = probes_in.clone();
+                    let h = tokio::spawn(async move {
+                        let svc = hyper::service::service_fn(move |req: http::Request<hyper::body::Incoming>| {
+                            let in_flight = in_flight.clone();
+                            let conn_of = conn_of.clone();
+                            let probe_conns = probe_conns.clone();
+                            let mut turn_rx = turn_rx.clone();
+                            let probe_gate = probe_gate.clone();
+                            let probes_in = probes_in.clone();
+                            async move {
+                                let k = req.headers().get("x-k").and_then(|v| v.to_str().ok()).unwrap_or("p").to_string();
+                                if let Ok(i) = k.parse::<usize>() {
+                                    conn_of.lock().unwrap()[i] = Some(my);
+                                    in_flight.fetch_add(1, Ordering::SeqCst);
+                                    // completed strictly in order of i
+                                    let _ = tokio::time::timeout(std::time::Duration::from_secs(3), turn_rx.wait_for(|t| *t >= i as i64)).await;
+                                } else {
+                                    probe_conns.lock().unwrap().push(my);
+                                    let now = probes_in.fetch_add(1, Ordering::SeqCst) + 1;
+                                    if now >= probes {
+                                        probe_gate.notify_waiters();
+                                    } else {
+                                        let _ = tokio::time::timeout(std::time::Duration::from_millis(400), probe_gate.notified()).await;
+                                    }
+                                }
+                                Ok::<_, std::convert::Infallible>(http::Response::new(hyperdriver::Body::empty()))
+                            }
+                        });
+                        let _ = hyper::server::conn::http1::Builder::new().serve_connection(TokioIo::new(stream), svc).await;
+                    });
+                    handles.lock().unwrap().push(h);
+                }
+            });
+        }
+        let dials = Arc::new(AtomicUsize::new(0));
+        let mut cfg = hyperdriver::client::PoolConfig::default();
+        cfg.max_idle_per_host = 8;
+        cfg.idle_timeout = None;
+        cfg.continue_after_preemption = false;
+        let client = hyperdriver::client::Client::builder()
+            .with_protocol(HttpConnectionBuilder::default())
+            .with_transport(Counting(DuplexTransport::new(4096, tx.clone()), dials.clone()))
+            .with_pool(cfg)
+            .build();
+        let mut out = vec![];
+        // first burst: n requests in flight together, each on its own connection
+        let mut hs = vec![];
+        for i in 0..n {
+            let mut c = client.clone();
+            hs.push(tokio::spawn(async move {
+                let req = http::Request::get("http://origin.test/").header("x-k", i.to_string()).body(hyperdriver::Body::empty()).unwrap();
+                c.request(req).await.map(|r| r.status().as_u16())
+            }));
+        }
+        for _ in 0..200 {
+            if in_flight.load(Ordering::SeqCst) >= n {
+                break;
+            }
+            tokio::time::sleep(std::time::Duration::from_millis(5)).await;
+        }
+        let mut ok = 0;
+        for (i, h) in hs.into_iter().enumerate() {
+            let _ = turn_tx.send(i as i64);
+            if let Ok(Ok(200)) = h.await {
+                ok += 1;
+            }
+            // let this connection find its way back into the pool before the next one is released
+            for _ in 0..20 {
+                tokio::task::yield_now().await;
+            }
+            tokio::time::sleep(std::time::Duration::from_millis(30)).await;
+        }
+        out.push(format!("burst_ok={ok}"));
+        out.push(format!("dials_first={}", dials.load(Ordering::SeqCst)));
+        // the peer closes the flagged idle connections
+        let map: Vec<Option<usize>> = conn_of.lock().unwrap().clone();
+        for (i, open) in flags.iter().enumerate() {
+            if !*open {
+                if let Some(c) = map[i] {
+                    handles.lock().unwrap()[c].abort();
+                }
+            }
+        }
+        tokio::time::sleep(std::time::Duration::from_millis(80)).await;
+        let before = dials.load(Ordering::SeqCst);
+        let mut hs = vec![];
+        for _ in 0..probes {
+            let mut c = client.clone();
+            hs.push(tokio::spawn(async move {
+                let req = http::Request::get("http://origin.test/").header("x-k", "p").body(hyperdriver::Body::empty()).unwrap();
+                c.request(req).await.map(|r| r.status().as_u16())
+            }));
+        }
+        let mut pok = 0;
+        for h in hs {
+            if let Ok(Ok(200)) = h.await {
+                pok += 1;
+            }
+        }
+        out.push(format!("probes={probes}"));
+        out.push(format!("probes_ok={pok}"));
+        out.push(format!("dials_second={}", dials.load(Ordering::SeqCst) - before));
+        out.push(format!("expected_dials={}", if m_open > 0 { 0 } else { 1 }));
+        let served: Vec<String> = probe_conns.lock().unwrap().iter().map(|c| match map.iter().position(|x| *x == Some(*c)) {
+            Some(i) => i.to_string(),
+            None => "new".into(),
+        }).collect();
+        out.push(format!("served_by={}", served.join(",")));
+        out.push("result=ok".into());
+        out
+    })
+}
+
+/// C15: the idle limit when a request that took an idle connection is abandoned before it was ever polled.
+/// `max_idle` + 1 HTTP/1.1 requests run together, each on its own connection; `max_idle` of them finish and
+/// are released (the idle list is full), one is held by the server.  A further request is created (the pool
+/// hands it an idle connection at call time) but not polled; the held request completes and its connection
+/// is released; the parked request is dropped.  Then `max_idle` + 1 requests are created together: those that
+/// do not have to dial found an idle connection - `idle_after` must not exceed `max_idle`.
+fn pool_idle_limit(kv: &BTreeMap<String, String>) -> Vec<String> {
+    use http_body_util::BodyExt as _;
+    use hyperdriver::bridge::io::TokioIo;
+    use hyperdriver::client::conn::protocol::auto::HttpConnectionBuilder;
+    use hyperdriver::client::conn::transport::duplex::DuplexTransport;
+    use hyperdriver::client::conn::transport::TransportExt as _;
+    use hyperdriver::client::ConnectionPoolService;
+    use hyperdriver::server::conn::Accept;
+    use hyperdriver::service::RequestExecutor;
+    use hyperdriver::Body;
+    use std::sync::atomic::{AtomicUsize, Ordering};
+    use std::sync::Arc;
+    use tower::Service as _;
+    let m: usize = kv.get("max_idle").and_then(|s| s.parse().ok()).unwrap_or(1);
+    if m > 4 {
+        return vec!["input_error=max_idle 0..4".into()];
+    }
+    let rt = tokio::runtime::Builder::new_current_thread().enable_all().build().unwrap();
+    rt.block_on(async move {
+        let (tx, mut incoming) = hyperdriver::stream::duplex::pair();
+        let accepted = Arc::new(AtomicUsize::new(0));
+        let hold = Arc::new(tokio::sync::Notify::new());
+        {
+            let accepted = accepted.clone();
+            let hold = hold.clone();
+            tokio::spawn(async move {
+                loop {
+                    let s = match std::future::poll_fn(|cx| std::pin::Pin::new(&mut incoming).poll_accept(cx)).await {
+                        Ok(s) => s,
+                        Err(_) => break,
+                    };
+                    accepted.fetch_add(1, Ordering::SeqCst);
+                    let hold = hold.clone();
+                    tokio::spawn(async move {
+                        let svc = hyper::service::service_fn(move |req: http::Request<hyper::body::Incoming>| {
+                            let hold = hold.clone();
+                            async move {
+                                if req.uri().path() == "/hold" {
+                                    let _ = tokio::time::timeout(std::time::Duration::from_secs(3), hold.notified()).await;
+                                }
+                                Ok::<_, std::convert::Infallible>(http::Response::new(Body::empty()))
+                            }
+                        });
+                        let _ = hyper::server::conn::http1::Builder::new().keep_alive(true).serve_connection(TokioIo::new(s), svc).await;
+                    });
+                }
+            });
+        }
+        let mut cfg = hyperdriver::client::PoolConfig::default();
+        cfg.idle_timeout = Some(std::time::Duration::from_secs(60));
+        cfg.max_idle_per_host = m;
+        cfg.continue_after_preemption = false;
+        let mut svc: ConnectionPoolService<_, _, _, Body, hyperdriver::client::pool::UriKey> =
+            ConnectionPoolService::new(DuplexTransport::new(1024, tx).without_tls(), HttpConnectionBuilder::default(), RequestExecutor::new(), cfg);
+        let request = |path: &str| http::Request::get(format!("http://test{path}")).version(http::Version::HTTP_11).body(Body::empty()).unwrap();
+        let settle = || async {
+            for _ in 0..20 {
+                tokio::task::yield_now().await;
+            }
+            tokio::time::sleep(std::time::Duration::from_millis(50)).await;
+        };
+        let mut out = vec![];
+        // max_idle + 1 requests together; the last one is held by the server
+        let mut futs = vec![];
+        for _ in 0..m {
+            futs.push(svc.call(request("/")));
+        }
+        let held = tokio::spawn(svc.call(request("/hold")));
+        let mut ok = 0;
+        for f in futs.into_iter().map(tokio::spawn).collect::<Vec<_>>() {
+            if let Ok(Ok(resp)) = f.await {
+                if resp.status() == 200 {
+                    ok += 1;
+                }
+                let _ = resp.into_body().collect().await;
+            }
+        }
+        settle().await;
+        out.push(format!("first_ok={ok}"));
+        out.push(format!("dials_first={}", accepted.load(Ordering::SeqCst)));
+        // a request that takes an idle connection at call time and is never polled
+        let parked = svc.call(request("/"));
+        // the held request completes: its connection fills the idle list again
+        hold.notify_waiters();
+        match held.await {
+            Ok(Ok(resp)) => {
+                let _ = resp.into_body().collect().await;
+            }
+            _ => out.push("held=err".into()),
+        }
+        settle().await;
+        drop(parked);
+        settle().await;
+        let before = accepted.load(Ordering::SeqCst);
+        let mut probes = vec![];
+        for _ in 0..m + 1 {
+            probes.push(svc.call(request("/")));
+        }
+        let mut pok = 0;
+        for f in probes.into_iter().map(tokio::spawn).collect::<Vec<_>>() {
+            if let Ok(Ok(resp)) = f.await {
+                if resp.status() == 200 {
+                    pok += 1;
+                }
+                let _ = resp.into_body().collect().await;
+            }
+        }
+        let dialed = accepted.load(Ordering::SeqCst) - before;
+        out.push(format!("probes_ok={pok}"));
+        out.push(format!("dials_second={dialed}"));
+        out.push(format!("idle_after={}", (m + 1).saturating_sub(dialed)));
+        out.push("result=ok".into());
         out
     })
 }
@@ -516,7 +1122,11 @@ fn urikey(kv: &BTreeMap<String, String>) -> Vec<String> {
         Ok(u) => u,
         Err(e) => return vec![format!("input_error={e}")],
     };
-    let (p, _) = http::Request::builder().uri(uri).body(()).unwrap().into_parts();
+    let mut b = http::Request::builder().uri(uri);
+    if let Some(h) = kv.get("header.host") {
+        b = b.header("host", h.as_str());
+    }
+    let (p, _) = b.body(()).unwrap().into_parts();
     match hyperdriver::client::pool::UriKey::try_from(&p) {
         Ok(k) => vec![format!("key={k}"), "result=ok".into()],
         Err(e) => vec![format!("result=err:{e}")],
@@ -872,6 +1482,8 @@ fn pool_extra_dial(kv: &BTreeMap<String, String>) -> Vec<String> {
 
 pub fn dispatch(family: &str, kv: &BTreeMap<String, String>) -> Vec<String> {
     match family {
+        "pool_bg_attempt" => crate::eyes::pool_bg_attempt(kv),
+        "pool_preempted_owner" => crate::eyes::pool_preempted_owner(kv),
         "builder_tls_order" => crate::eyes::builder_tls_order(kv),
         "client_send_version" => crate::eyes::client_send_version(kv),
         "unix_client_path" => crate::eyes::unix_client_path(kv),
@@ -886,8 +1498,14 @@ pub fn dispatch(family: &str, kv: &BTreeMap<String, String>) -> Vec<String> {
         "urikey" => urikey(kv),
         "pool_closed_handback" => pool_closed_handback(kv),
         "pool_release" => pool_release(kv),
+        "pool_idle_limit" => pool_idle_limit(kv),
+        "pool_idle_closed" => pool_idle_closed(kv),
+        "pool_idle_expiry" => pool_idle_expiry(kv),
+        "pool_timeout_inflight" => pool_timeout_inflight(kv),
         "duplex_cancelled_connect" => duplex_cancelled_connect(kv),
         "sort_preferred" => sort_preferred(kv),
+        "binding_pref" => binding_pref(kv),
+        "braid_op" => braid_op(kv),
         "sni" => sni(kv),
         "version_into_protocol" => version_into_protocol(kv),
         "tls_connect" => tls_connect(kv),
